@@ -95,7 +95,7 @@ def plan(tier, seed, build, scale):
         for perf in (False, True):
             if tier == "quick" and perf and nthreads in (2, 16):
                 continue
-            units.append({"threads": nthreads, "perf": perf, "rounds": rounds, "cases": [nthreads * 2 + int(perf), nthreads * 2 + int(perf) + 1], "timeout": 380 if tier == "quick" else 2900, "case_timeout": 360 if tier == "quick" else 2800})
+            units.append({"threads": nthreads, "perf": perf, "rounds": rounds, "cases": [nthreads * 2 + int(perf), nthreads * 2 + int(perf) + 1], "timeout": 380 if tier == "quick" else 2900, "case_timeout": 200})
     return units
 
 
@@ -184,6 +184,7 @@ def loop(tid, nthreads, rounds, seed, perf, out, barrier=None):
     if barrier is not None:
         barrier.wait()
     for r in range(rounds):
+        tl.tick()
         viol = []
         digest = []
         mark = len(SWITCH_LOG)
